@@ -4,7 +4,7 @@ C15 — the property as executable predicates over OBSERVABLE behaviour (core Le
 * `specSteps`   — what a request list MEANS: every `name(n, s)` stands for n consecutive executions of `name`,
                   each followed by a pause of s ms; `sleep(ms)` adds ms to the pause after the step executed last
                   before it.  Written right-to-left (pending pause), independently of the Go loop.
-* `ringOK`      — deliveries are periodic and within a period scenario i occurs `w_i / gcd(w)` times
+* `ringOK`      — within every complete pass scenario i occurs `w_i / gcd(w)` times
                   (hence counts are proportional to the weights).
 * `shotOK`      — one scenario invocation seen from outside: steps start in the listed order, every step
                   before the last one reported a successful sample, a failed sample is the last event of the
@@ -50,19 +50,19 @@ def effWeights (ws : List Int) : List Nat :=
   | [_] => [1]
   | _ => ws.map fun w => if w == 0 then 1 else w.toNat
 
-/-- `delivered` (scenario names in delivery order) against names `ns` with weights `ws` -/
+/-- `delivered` (scenario names in delivery order) against names `ns` with weights `ws`: every complete pass of
+`Σ w_i / gcd(w)` deliveries contains scenario i exactly `w_i / gcd(w)` times — so over every whole number of passes
+the counts are in proportion to the weights (also checked cross-multiplied). The ORDER inside a pass is not part of
+the property (it is part of the model-vs-implementation comparison). -/
 def ringOK (ns : List (List Char)) (ws : List Int) (delivered : List (List Char)) : Bool :=
   let ew := effWeights ws
   let g := gcdList ew
   let period := (ew.map (· / g)).foldl (· + ·) 0
   if g == 0 || period == 0 then delivered.isEmpty else
-  -- periodic
-  (List.range delivered.length).all (fun k =>
-    k < period || delivered[k]? == delivered[k - period]?) &&
-  -- one full period contains scenario i exactly w_i / g times (checked when a full period was observed)
-  (delivered.length < period ||
-    (ns.zip ew).all fun (n, w) => count n (delivered.take period) == w / g) &&
-  -- cross-multiplied proportionality over every whole number of periods
+  -- every complete pass contains scenario i exactly w_i / g times
+  (List.range (delivered.length / period)).all (fun j =>
+    (ns.zip ew).all fun (n, w) => count n ((delivered.drop (j * period)).take period) == w / g) &&
+  -- cross-multiplied proportionality over every whole number of passes
   (let whole := delivered.take (delivered.length / period * period)
    (ns.zip ew).all fun (ni, wi) => (ns.zip ew).all fun (nj, wj) =>
      count ni whole * wj == count nj whole * wi)
